@@ -183,7 +183,7 @@ def check(run, drv, we, thorough):
 
 def main(prop, tier, seed):
     run = common.Run(prop, tier, seed)
-    aud = common.audit(prop, thorough=(tier == "thorough"))
+    aud = common.audit_with_arith(prop, "C12Gen", thorough=(tier == "thorough"))   # second tie: friction-velocity closed form re-translated
     common.use_repo_source()
     from ocean_science_utilities.wavephysics import windestimate as we
     drv = common.Driver()
